@@ -30,6 +30,46 @@ fn main() {
                 writeln!(out, "{}", json!({"tl": tl})).unwrap();
             }
         }
+        Some("capi-diff") | Some("capi-run") => {
+            // stdin: {"cfg":..,"text"|"input":..,"cuts":[..],"opts":{<CapiOpts flags>}} per line.
+            // capi-diff: SAME or the first differing (normalised) event pair; capi-run: C timeline.
+            let show = args.get(1).map(|s| s == "capi-run").unwrap_or(false);
+            let stdin = std::io::stdin();
+            let mut bad = 0usize;
+            for (ln, line) in stdin.lock().lines().enumerate() {
+                let line = line.unwrap();
+                if line.trim().is_empty() { continue; }
+                let v: Value = serde_json::from_str(&line).expect("json");
+                let input: Vec<u8> = match v.get("text") {
+                    Some(t) => t.as_str().unwrap().as_bytes().to_vec(),
+                    None => v["input"].as_array().unwrap().iter().map(|x| x.as_u64().unwrap() as u8).collect(),
+                };
+                let cuts: Vec<usize> = v.get("cuts").and_then(|c| c.as_array()).map(|a| a.iter().map(|x| x.as_u64().unwrap() as usize).collect()).unwrap_or_default();
+                let opts = capi::CapiOpts::from_json(v.get("opts"));
+                let ctl = capi::run_capi(&v["cfg"], &input, &cuts, &opts);
+                if show {
+                    println!("{}", json!({"tl": ctl}));
+                    continue;
+                }
+                let rtl = driver::run(&v["cfg"], &input, &cuts, &driver::RunOpts::default());
+                let live = ctl.iter().rev().find(|e| e["op"] == "leakcheck").map(|e| e["live"].clone()).unwrap_or(Value::Null);
+                let strs = ctl.iter().rev().find(|e| e["op"] == "strcheck").cloned().unwrap_or(Value::Null);
+                let unk = ctl.iter().filter(|e| e.to_string().contains("unknown-op")).count();
+                let tail = format!("events={} live={} strs={}/{} unknown-op-events={}", ctl.len(), live, strs["freed"], strs["obtained"], unk);
+                match capi::first_diff(&rtl, &ctl) {
+                    None => println!("{} SAME {}", ln + 1, tail),
+                    Some((i, r, c)) => {
+                        bad += 1;
+                        println!("{} DIFF at {} {}\n  rust: {}\n  capi: {}", ln + 1, i, tail, r, c);
+                    }
+                }
+                if live != json!(0) || strs["freed"] != strs["obtained"] { bad += 1; println!("{} LEAK", ln + 1); }
+            }
+            if bad > 0 { std::process::exit(1); }
+        }
+        Some("capi-probe") => {
+            for e in capi::capi_error_probe() { println!("{e}"); }
+        }
         Some("replay") => {
             // lh replay <job> <outdir>   (stdin: the "src" object of a replay file)
             let job = args.get(2).expect("job");
@@ -76,6 +116,7 @@ fn main() {
                 "c11" => props::bail::job_c11(outdir, tier, seed),
                 "c13" => props::enc::job_c13(outdir, tier, seed),
                 "c03" => props::whatwg::job_c03(outdir, tier, seed),
+                "c17" => props::capi_job::job_c17(outdir, tier, seed),
                 "c18" => props::threads::job_c18(outdir, tier, seed),
                 "c18s" => props::threads::job_c18_sched(outdir, tier, seed),
                 "c09" => props::lat::job_c09(outdir, tier, seed),
